@@ -23,7 +23,7 @@ for d in sorted(glob.glob('/verif/seeded/*/')):
         if r.get('exit') == 1:
             keys += [f"{c}:{k}" for k in r.get('keys', [])[:2]]
     rows.append((m['property'], m['name'], 'yes' if (m.get('confirmed') or {}).get('suite_unchanged') else '?',
-                 ', '.join(m.get('caught_by') or []) or '**missed**', ('first missed' if (first == [] and m.get('caught_by')) else ''), '; '.join(keys)[:110]))
+                 ', '.join(m.get('caught_by') or []) or ('out of scope (see decision)' if m.get('decision') else '**missed**'), ('first missed' if (first == [] and m.get('caught_by')) else ''), '; '.join(keys)[:110]))
 lines = ['| written for | mutant | suite unchanged | caught by | note | violation keys |', '|---|---|---|---|---|---|']
 lines += ['| ' + ' | '.join(r) + ' |' for r in rows]
 print('\n'.join(lines))
